@@ -174,7 +174,7 @@ impl Prop for C01 {
         true
     }
     fn random_cases(tier: Tier) -> u64 {
-        tier.pick(60_000, 8_000_000)
+        tier.pick(200_000, 8_000_000)
     }
     fn strategy(tier: Tier) -> BoxedStrategy<Case> {
         let (max_len, max_cells, max_labels) = tier.pick((64, 10, 8), (2048, 60, 40));
